@@ -178,6 +178,7 @@ static struct {
     uint64_t digest;
     int nteams;
     int in_team;
+    int multi; /* the 'team' is a set of concurrent caller threads, each making its own kernel call */
     int nest;
     int nthreads;
     int cur;
@@ -782,8 +783,8 @@ EXPORT void GOMP_parallel(void (*fn)(void *), void *data, unsigned nthreads, uns
     team_run(fn, data, nthreads, 0);
 }
 
-EXPORT int omp_get_thread_num(void) { return (G.in_team && !G.nest) ? G.cur : 0; }
-EXPORT int omp_get_num_threads(void) { return (G.in_team && !G.nest) ? G.nthreads : 1; }
+EXPORT int omp_get_thread_num(void) { return (G.in_team && !G.nest && !G.multi) ? G.cur : 0; }
+EXPORT int omp_get_num_threads(void) { return (G.in_team && !G.nest && !G.multi) ? G.nthreads : 1; }
 EXPORT int omp_get_max_threads(void) { return G.team_default; }
 EXPORT void omp_set_num_threads(int n) {
     if (n >= 1)
@@ -1353,6 +1354,7 @@ EXPORT void sim_begin_run(void) {
     G.digest = 0xcbf29ce484222325ULL;
     G.nteams = 0;
     G.in_team = 0;
+    G.multi = 0;
     G.nest = 0;
     G.nlog = 0;
     G.log_overflow = 0;
@@ -1467,6 +1469,66 @@ EXPORT int sim_call(sim_callrec_t *c) {
     sim_switch(&G.root_sp, G.v0.sp);
     G.in_call = 0;
     G.in_team = 0;
+    G.nest = 0;
+    return G.aborted;
+}
+
+/* several caller threads, each making one kernel call with its own arguments, interleaved by the scheduler
+ * at every instrumented access (f2py releases the GIL for kernels declared threadsafe) */
+typedef struct {
+    sim_callrec_t *recs;
+    int n;
+} sim_multi_t;
+
+static void do_call(sim_callrec_t *c) {
+    long *i = c->iargs, *s = c->sargs;
+    double *f = c->fargs;
+    if (c->ret_kind == 0) {
+        c->ret_l = ((fn_l_t)c->fn)(i[0], i[1], i[2], i[3], i[4], i[5], f[0], f[1], f[2], f[3], f[4], f[5], f[6], f[7],
+                                   s[0], s[1], s[2], s[3], s[4], s[5], s[6], s[7], s[8], s[9], s[10], s[11], s[12],
+                                   s[13], s[14], s[15]);
+    } else {
+        c->ret_d = ((fn_d_t)c->fn)(i[0], i[1], i[2], i[3], i[4], i[5], f[0], f[1], f[2], f[3], f[4], f[5], f[6], f[7],
+                                   s[0], s[1], s[2], s[3], s[4], s[5], s[6], s[7], s[8], s[9], s[10], s[11], s[12],
+                                   s[13], s[14], s[15]);
+    }
+}
+
+static void multi_thread(void *arg) {
+    sim_multi_t *m = (sim_multi_t *)arg;
+    do_call(&m->recs[G.cur]);
+}
+
+static void multi_entry(void *arg) {
+    sim_multi_t *m = (sim_multi_t *)arg;
+    int save = G.deliver;
+    G.deliver = MAXT;
+    G.multi = 1;
+    team_run(multi_thread, m, (unsigned)m->n, 0);
+    G.multi = 0;
+    G.deliver = save;
+    G.in_call = 0;
+    {
+        void *dummy;
+        sim_switch(&dummy, G.root_sp);
+    }
+}
+
+EXPORT int sim_call_multi(sim_callrec_t *recs, int n) {
+    static sim_multi_t m;
+    sim_init_once();
+    if (n < 1 || n > MAXT)
+        return -1;
+    m.recs = recs;
+    m.n = n;
+    G.aborted = 0;
+    G.in_call = 1;
+    logev(EV_CALL, n, 0, 0);
+    make_ctx(&G.v0, multi_entry, &m, V0FILL, 4242 + G.steps);
+    sim_switch(&G.root_sp, G.v0.sp);
+    G.in_call = 0;
+    G.in_team = 0;
+    G.multi = 0;
     G.nest = 0;
     return G.aborted;
 }
